@@ -535,6 +535,68 @@ example : DocA adjDoc ∧ adjDoc.includes = none ∧ sumW adjDoc.lines = 10 ∧ 
       some (⟨3060, 2⟩, ⟨2815, 2⟩) :=
   ⟨adjDoc_class, rfl, by decide, by decide, by decide⟩
 
+/-! ## the tax clause (precise rule, prices not including tax)
+
+`taxW d G = G + Σ_lines lineW l·#combos l + Σ_{document discounts, charges} (1 + sumW)·#combos`:
+one rounding per rate group (`G` = number of rate groups of the presented tax summary, `groupsT t`)
+plus the error the row totals carry into the tax (every percentage ≤ 100 %). -/
+
+/-- (2) class `DocT` (class `DocA`; no included tax; every tax combo on a line or on a document
+discount / charge is ordinary: not retained, no surcharge, exempt or a percentage of magnitude ≤ 100 %):
+with `G` rate groups in the tax summary, if `taxW d G < 100` the presented tax, and if
+`totalW d + taxW d G < 100` the presented total with tax, are less than one minor unit from the exact
+rational values of `Spec.C01.exactQ` -/
+theorem presented_tax_within_one_unit (d : Doc) (out : Out) (t : Totals) (hd : DocT d)
+    (hcalc : calculate exactOps d = .ok out) (ht : out.totals = some t) :
+    (taxW d (groupsT t) < 100 → |t.tax.toRat - (exactQ d).tax| < 1 / ((pow10 d.c : ℤ) : ℚ)) ∧
+    (twtW d (groupsT t) < 100 →
+      |t.totalWithTax.toRat - (exactQ d).totalWithTax| < 1 / ((pow10 d.c : ℤ) : ℚ)) := by
+  obtain ⟨p, tx, hpre, htx, _, htr⟩ := calculate_unpack d out t hcalc ht
+  obtain ⟨_, _, _, _, _, w5, w6⟩ := working_tax d p tx hd hpre htx
+  have hG : groupsT t = groupsOf tx.cats := by rw [htr]; exact groupsT_round d p tx
+  have h1 : t.tax = (rawTotals exactOps d p tx).tax.rescaleX d.c := by rw [htr]; rfl
+  have h2 : t.totalWithTax = (rawTotals exactOps d p tx).totalWithTax.rescaleX d.c := by rw [htr]; rfl
+  rw [hG, h1, h2]
+  exact ⟨fun hn => within_unit d.c _ _ _ (by exact_mod_cast Nat.le_of_lt_succ hn) w5,
+    fun hn => within_unit d.c _ _ _ (by exact_mod_cast Nat.le_of_lt_succ hn) w6⟩
+
+theorem adjDoc_tax_class : DocT adjDoc := by
+  have hcb : ∀ (k : String) (v : ℤ) (e : ℕ), |(⟨v, e⟩ : Amount).toRat| ≤ 1 →
+      ComboOk { cat := "VAT", country := "", key := k, percent := some ⟨⟨v, e⟩⟩, surcharge := none, ext := "", retained := false } := by
+    intro k v e h
+    refine ⟨rfl, rfl, ?_⟩
+    intro p hp
+    simp only [Option.some.injEq] at hp
+    subst hp
+    exact h
+  refine ⟨adjDoc_class, rfl, ?_, ?_, ?_⟩
+  · intro l hl cb hcbm
+    simp only [adjDoc, List.mem_cons, List.mem_nil_iff, or_false] at hl
+    rcases hl with rfl | rfl
+    · simp only [List.mem_singleton] at hcbm
+      subst hcbm
+      exact hcb _ _ _ (by norm_num [Amount.toRat, pow10])
+    · simp only [List.mem_singleton] at hcbm
+      subst hcbm
+      exact hcb _ _ _ (by norm_num [Amount.toRat, pow10])
+  · intro x hx cb hcbm
+    simp only [adjDoc, List.mem_singleton] at hx
+    subst hx
+    simp at hcbm
+  · intro x hx cb hcbm
+    simp only [adjDoc, List.mem_singleton] at hx
+    subst hx
+    simp at hcbm
+
+/-- non-vacuity of (2): two rate groups (21 % and 10.5 %), `taxW = 2 + 7 + 3 = 12`, `twtW = 44`;
+exact tax 26.680625 × 0.21 + 3.9164 × 0.105 = 6.01415325 (presented 6.01), exact total with tax
+28.149263 + 6.01415325 = 34.16341625 (presented 34.16) -/
+example : DocT adjDoc ∧
+    ((calculate exactOps adjDoc).toOption.bind (·.totals)).map
+      (fun t => (groupsT t, taxW adjDoc (groupsT t), twtW adjDoc (groupsT t), t.tax, t.totalWithTax)) =
+      some (2, 12, 44, ⟨601, 2⟩, ⟨3416, 2⟩) :=
+  ⟨adjDoc_tax_class, by decide⟩
+
 /-! ## pinned source shapes (regenerated facts; tools/pin_calc_expect.py) -/
 
 namespace ExpectCalc
